@@ -451,7 +451,7 @@ var aliasRe = regexp.MustCompile(`\b(byte|rune|any)\b`)
 
 // goTypeString renders a type the way %T does (aliases resolved).
 func goTypeString(t types.Type) string {
-	return aliasRe.ReplaceAllStringFunc(types.TypeString(t, nil), func(m string) string {
+	return aliasRe.ReplaceAllStringFunc(types.TypeString(t, func(p *types.Package) string { return p.Name() }), func(m string) string {
 		switch m {
 		case "byte":
 			return "uint8"
